@@ -248,7 +248,7 @@ def check(run, views, tier):
             run.anchor_lost("R-SUCCESS", "ipp::model::StatusCode::is_success")
         elif "ipp::model::StatusCode" in F.adts:
             all_variants = [v["path"] for v in F.adts["ipp::model::StatusCode"]["variants"]]
-            tset, why = true_set(unwrap(isb["body"]), all_variants)
+            tset, why = true_set_eval(unwrap(isb["body"]), {v["path"]: v["discr"] for v in F.adts["ipp::model::StatusCode"]["variants"]})
             if tset is None:
                 run.ob("R-SUCCESS", "is_success shape", False, why, site(isb))
             else:
@@ -321,6 +321,84 @@ def status_code_shape(e, unknown_path):
             return False, "unrecognised arm %s" % show(p)
         return (good == 2), "match with %d recognised arms" % good
     return False, "unrecognised status decoding shape (accepted: unwrap_or / unwrap_or_else / match Some-None): %s" % show(e)[:200]
+
+
+def eval_num(e, disc):
+    e = unwrap(e)
+    k = e.get("k")
+    if k == "lit" and isinstance(e["v"], int) and not isinstance(e["v"], bool):
+        return e["v"]
+    if k == "cast":
+        return eval_num(e["e"], disc)
+    if k in ("un", "ref") and (k == "ref" or e.get("op") == "Deref"):
+        return eval_num(e["e"], disc)
+    if k == "path" and e["res"].get("name") == "self":
+        return disc
+    return None
+
+
+def eval_bool(e, variant, disc):
+    """Evaluate a pure boolean expression over `self` for one concrete variant; None = not understood."""
+    e = unwrap(e)
+    k = e.get("k")
+    if k == "lit" and isinstance(e["v"], bool):
+        return e["v"]
+    if k == "un" and e.get("op") == "Not":
+        v = eval_bool(e["e"], variant, disc)
+        return None if v is None else (not v)
+    if k == "bin" and e["op"] in ("And", "Or"):
+        a, b = eval_bool(e["a"], variant, disc), eval_bool(e["b"], variant, disc)
+        if a is None or b is None:
+            return None
+        return (a and b) if e["op"] == "And" else (a or b)
+    if k == "bin" and e["op"] in ("Lt", "Le", "Gt", "Ge", "Eq", "Ne"):
+        a, b = eval_num(e["a"], disc), eval_num(e["b"], disc)
+        if a is None or b is None:
+            return None
+        return {"Lt": a < b, "Le": a <= b, "Gt": a > b, "Ge": a >= b, "Eq": a == b, "Ne": a != b}[e["op"]]
+    if k == "match":
+        s = unwrap(e["scrut"])
+        while s.get("k") in ("un", "ref"):
+            s = unwrap(s["e"])
+        if not (s.get("k") == "path" and s["res"].get("name") == "self"):
+            return None
+        for arm in e["arms"]:
+            p = arm["pat"]
+            while p["k"] in ("pref", "pderef"):
+                p = p["p"]
+            pats = p["pats"] if p["k"] == "por" else [p]
+            hit = False
+            for q in pats:
+                while q["k"] in ("pref", "pderef"):
+                    q = q["p"]
+                if q["k"] in ("wild", "bind"):
+                    hit = True
+                elif q["k"] == "pexpr" and q.get("path"):
+                    hit = hit or q["path"] == variant
+                else:
+                    return None
+            if hit:
+                if "guard" in arm:
+                    g = eval_bool(arm["guard"], variant, disc)
+                    if g is None:
+                        return None
+                    if not g:
+                        continue
+                return eval_bool(arm["body"], variant, disc)
+        return None
+    return None
+
+
+def true_set_eval(e, variants):
+    """variants: {path: discriminant}. Returns (set of variants mapped to true, reason)."""
+    out = set()
+    for v, d in variants.items():
+        r = eval_bool(e, v, d)
+        if r is None:
+            return None, "unrecognised is_success shape (accepted: match / matches! on self with boolean arms, numeric comparisons of `*self as <int>` with literals, !, &&, ||): %s" % show(e)[:160]
+        if r:
+            out.add(v)
+    return out, ""
 
 
 def true_set(e, all_variants):
